@@ -269,6 +269,7 @@ type tunnelScript struct {
 	hostSends []byte   // what the backend writes once connected
 	xff       string
 	auth      string   // Authorization header value ("" = none)
+	returnCookie bool  // a client that has talked to the gateway before and sends its session cookie back
 	afterEnd  [][]byte // packets sent after the tunnel should have ended (silence check)
 	end       string   // how the client ends: close | leave
 }
@@ -292,6 +293,22 @@ func openTunnel(g *gwInstance, sc tunnelScript) (tclient, error) {
 	}
 	if sc.transport == "legacy" {
 		return legacyDial(g, sc.id, hdr)
+	}
+	if sc.returnCookie {
+		// an earlier visit (a plain request, answered with the session cookie): the cookie is sent back now
+		if !g.tls {
+			if resp, err0 := http.Get(fmt.Sprintf("http://127.0.0.1:%d/remoteDesktopGateway/", g.port)); err0 == nil {
+				var ck []string
+				for _, c := range resp.Header.Values("Set-Cookie") {
+					ck = append(ck, strings.SplitN(c, ";", 2)[0])
+				}
+				io.Copy(io.Discard, resp.Body)
+				resp.Body.Close()
+				if len(ck) > 0 {
+					hdr["Cookie"] = strings.Join(ck, "; ")
+				}
+			}
+		}
 	}
 	ws, st, _, err := wsDial(g, wsOpts{headers: hdr, connID: sc.id})
 	if err != nil || st != 101 {
